@@ -525,7 +525,9 @@ fn wrap_traced_boxed(cx: &mut VtCtx, script: &[PollScript]) {
     let name = "traced-boxed-fn".to_string();
     let inner = ScriptedFuture(Scripted { adapter: a, script: script.to_vec(), pos: 0, in_span: true, eop: None, held: vec![], waker: None });
     let c0 = cx_now(cx);
-    let Some(fut) = cx.guarded("#[trace] fn returning a boxed future", move |_| crate::exec::traced_boxed(inner)) else { return };
+    let d0 = crate::exec::BOXED_DEBUG_CALLS.load(std::sync::atomic::Ordering::SeqCst);
+    let Some(fut) = cx.guarded("#[trace] fn returning a boxed future", move |_| crate::exec::traced_boxed(inner, crate::exec::BoxedArg(7))) else { return };
+    let d1 = crate::exec::BOXED_DEBUG_CALLS.load(std::sync::atomic::Ordering::SeqCst);
     let c1 = cx_now(cx);
     // the model's span: created by the call under the caller's local parent (like
     // Span::enter_with_local_parent); the real handle lives inside the returned future
@@ -540,11 +542,19 @@ fn wrap_traced_boxed(cx: &mut VtCtx, script: &[PollScript]) {
     ms.br.c0 = c0;
     ms.br.c1 = c1;
     ms.in_adapter = Some(a);
+    let recording = !ms.noop && !ms.items.is_empty();
     w.h.spans.push(ms);
     w.spans.push(Slot::Gone);
     let idx = w.h.spans.len() - 1;
     w.adapters.push(Slot::Live(AdapterObj::Fut(fut)));
     let vt = cx.id;
+    // the attribute's property belongs to the call: evaluated there if the call records, never later
+    w.h.closures.push(ClosureCall { api: "#[trace(properties)] fn returning a boxed future: call", recording, invoked: d1 != d0, t: t1 });
+    if recording {
+        w.h.atts.push(MAtt { kind: AKind::Props(vec![("tbx".to_string(), "BA(7)".to_string())]), target: ARef::Span(idx), route: Route::Creation, vt, t: (t0, t1), scope: None, b0: 0, b1: 0 });
+    } else {
+        w.h.dark_names.push("tbx".to_string());
+    }
     w.h.adapters.push(MAdapter {
         kind: AdapterKind::TracedBoxed,
         span: Some(idx),
@@ -640,6 +650,7 @@ pub fn drive(cx: &mut VtCtx, a_sel: u16, entry: Entry, nested: bool) {
     let waker = noop_waker();
     let prev = ACTIVE.with(|p| p.replace(cx as *mut VtCtx));
     let b0 = cx_now(cx);
+    let boxed_dbg0 = crate::exec::BOXED_DEBUG_CALLS.load(std::sync::atomic::Ordering::SeqCst);
     let res = std::panic::catch_unwind(std::panic::AssertUnwindSafe(|| {
         let mut c = Context::from_waker(&waker);
         match (&mut obj, entry) {
@@ -690,8 +701,12 @@ pub fn drive(cx: &mut VtCtx, a_sel: u16, entry: Entry, nested: bool) {
     }));
     let b1 = cx_now(cx);
     ACTIVE.with(|p| p.set(prev));
+    let boxed_dbg1 = crate::exec::BOXED_DEBUG_CALLS.load(std::sync::atomic::Ordering::SeqCst);
     let mut w = cx.case.w();
     let t1 = w.tick();
+    if kind == AdapterKind::TracedBoxed {
+        w.h.closures.push(ClosureCall { api: "#[trace(properties)] fn returning a boxed future: poll", recording: false, invoked: boxed_dbg1 != boxed_dbg0, t: t1 });
+    }
     w.adapters[a] = Slot::Live(obj);
     let vt = cx.id;
     let finished_now = match res {
